@@ -6,7 +6,7 @@ CFG = {"cmds": ["rm", "empty", "empty"], "oracles": ("effects",), "violations": 
 LEVEL_NOTE = ("theorems hold for every fault oracle: rmtree / remove_file2 / remove_file_if_exists / remove_file change no "
               "path outside the subtree they are given (plus the mtime of its parent), a symlink payload is unlinked, the "
               "payload path derived from an accepted info name lies under files/; the string-to-canonical resolution of "
-              "each path is validated by the correspondence")
+              "each path is validated by the correspondence; C11Cmd (whole runs of trash-empty and trash-rm, every fault oracle, every crash state, NO hypothesis on the entries): everything that is not at or below where t/files or t/info of a visited trash directory LEADS is unchanged, files/ and info/ themselves are never removed, nothing is created; the targets of linked payloads are untouched; boundary (real behaviour, kernel-checked): a files/ or info/ that is itself a symbolic link is purged where it leads")
 RULE = ("seeded trash worlds (1-5 volumes, home / .Trash/uid / .Trash-uid / --trash-dir) whose payloads include symlinks "
         "(absolute, relative, dangling) to sentinel files and directories outside, trees containing such links, and 14 "
         "kinds of malformed neighbours incl. odd info names; trash-rm with patterns and trash-empty with and without DAYS; "
